@@ -47,6 +47,7 @@ def build(tier, seed):
     tasks = [Task(f"{PROP}.S.save_graphs", PROP, "Documentation.__init__", lambda: __import__("contracts.plumbing", fromlist=["x"]).graphs_saved_only_into_graph_dir(PROP, lambda: __import__("bounded.c19", fromlist=["x"]).search())),
              a_task(PROP, _walk), Task(f"{PROP}.S.sites", PROP, "file-system call sites", lambda: _replay_if_refuted(confine.obligations(PROP))),
              Task(f"{PROP}.S.outfile", PROP, "outfile properties", lambda: confine.outfile_obligations(PROP) + confine.glob_targets_are_owned(PROP)),
+             Task(f"{PROP}.S.location", PROP, "PageNode.__init__", lambda: __import__("contracts.pages", fromlist=["x"]).location_obligation(PROP, lambda: __import__("bounded.c19", fromlist=["x"]).search())),
              Task(f"{PROP}.S.refusal", PROP, "refusal", lambda: confine.refusal_obligations(PROP)), bounded_task()]
     meta = {
         "trusted_base": ["the path algebra of contracts/confine.py (Under(ROOT) / Safe component) and its pathlib reading: `a / b` stays under a iff b is relative and has no '..'",
